@@ -211,7 +211,7 @@ func (p *cparser) expr(minPrec int) *CExpr {
 }
 
 func (p *cparser) unary() *CExpr {
-	if p.isOp("!") || p.isOp("-") {
+	if p.isOp("!") || p.isOp("-") || p.isOp("*") {
 		op := p.next().s
 		x := p.unary()
 		return &CExpr{Kind: CUnary, Op: op, X: x}
